@@ -139,7 +139,9 @@ def run(ctx):
             r1.fail(f"{cname}.to_json_dict", f"evaluates ({r.exc_name}{r.exc_args})", tj.loc())
             continue
         if not isinstance(dump, dict):
-            raise AnalysisError("C16.R1", f"{cname}.to_json_dict did not evaluate to a dict")
+            r1.fail(f"{cname}.to_json_dict", "the dump is a dict computed from the element's current fields", tj.loc(),
+                    why_fail=f"with every field set, the method returned {dump!r} - a stored value is handed out instead of a dump of the current state")
+            continue
         for slot, reader in sorted(reads.items()):
             if slot in DERIVABLE:
                 continue
@@ -416,7 +418,7 @@ def _dump_completeness_rule(ctx):
     tj = scls.methods["to_json_dict"]
     slots = tuple(_slots(ctx, scls))
     SETTINGS = {"title": "My title", "id_string": "my_id", "version": "2024", "style": "pages", "public_key": "KEY", "submission_url": "https://example.org/s", "auto_send": "true",
-                "auto_delete": "false", "namespaces": 'ex="http://example.org/ex"', "instance_name": "concat(${a}, '-')", "attribute": {"ex:role": "x"}, "default_language": "English (en)",
+                "auto_delete": "false", "namespaces": 'ex="http://example.org/ex"', "instance_name": "concat(${a}, '-')", "attribute": {"ex:role": "x", "_underscored": "kept", "parent": "also kept"}, "default_language": "English (en)",
                 "sms_keyword": "kw", "sms_separator": "+", "instance_xmlns": "http://example.org/x", "omit_instanceID": "yes", "add_none_option": True, "clean_text_values": "no",
                 "allow_choice_duplicates": "yes", "file_name": "f.xlsx"}
     for feats in (None, ["create"], ["create", "update", "offline"]):
@@ -424,10 +426,15 @@ def _dump_completeness_rule(ctx):
         attrs.update({k: v for k, v in SETTINGS.items() if k in slots})
         attrs.update({"name": "data", "type": "survey", "children": [], "entity_features": feats, "setvalues_by_triggering_ref": {}, "setgeopoint_by_triggering_ref": {}, "_translations": {}, "_xpath": None, "choices": None})
         sv = Obj(scls, attrs, name="survey", slots=slots)
+        import copy as _copy
+        live_before = _copy.deepcopy({k: v for k, v in attrs.items() if isinstance(v, dict | list) and k in SETTINGS})
         it = ctx.interp("C16.R10", hooks={"fnname:validate": lambda i, a, k, n: None})
         it.reset([])
         try:
             d = it.call_function(tj, [sv], {}, None, tj.node)
+            live_after = {k: sv.attrs.get(k) for k in live_before}
+            r.check(live_after == live_before, f"Survey.to_json_dict[entity_features={feats}]:survey untouched", "dumping leaves the survey's own nested dicts as they were", tj.loc(),
+                    why_fail=f"changed: { {k: (live_before[k], live_after[k]) for k in live_before if live_after[k] != live_before[k]} }"[:250])
         except Raised as e:
             r.fail(f"Survey.to_json_dict[entity_features={feats}]", f"evaluates ({e.exc_name}{e.exc_args})", tj.loc())
             continue
